@@ -29,8 +29,11 @@ def bounds(tier, seed):
 
 
 def vectors(K, b):
-    vs = [(p, list(U)) for p, U in al.knotvectors(K, b["pmax"], b["kmax"])]
-    deep = [(p, list(U)) for p, U in al.knotvectors(K, b["deep_pmax"], b["deep_kmax"], kmin=2)]
+    pmax, dpmax = b["pmax"], b["deep_pmax"]
+    if K != "K0" and not b["quick"]:
+        pmax, dpmax = 2, 1  # thorough: degree 3 (wide) and degree 2 (deep) partners on the core alphabet only
+    vs = [(p, list(U)) for p, U in al.knotvectors(K, pmax, b["kmax"])]
+    deep = [(p, list(U)) for p, U in al.knotvectors(K, dpmax, b["deep_kmax"], kmin=2)]
     return vs, deep
 
 
